@@ -266,6 +266,18 @@ class PPA:
                 return r
             # wire payload of Option/Result
             if t == "vfield" and e[2] in ("Ok", "Some") and e[3] == "0":
+                if e[1][0] == "phi":
+                    # the payload of an Option/Result held in a re-assigned local (`let x = match .. { .. => Some(a), .. => None }`):
+                    # the range of the payload's type, with assumption A1 for usize as for any other usize-valued local
+                    pty = f.prog.types[f.body.locals[e[1][1]]]
+                    args = pty.get("args") or []
+                    if pty.get("k") == "adt" and args and isinstance(args[0], dict) and "t" in args[0]:
+                        ity = f.prog.types[args[0]["t"]]
+                        r = ty_range(ity)
+                        if r is not None and ity.get("k") == "int" and ity.get("w") in (0, 64) and not ity.get("sg"):
+                            return Iv(0, SIZE)
+                        if r is not None:
+                            return r
                 return self.iv(env, e[1], depth + 1)
             if t == "field" and e[1][0] == "bin":
                 return self.iv(env, e[1], depth + 1)
@@ -704,6 +716,9 @@ def anon(t, ups=None):
     if t[0] == "upvar":
         k = ups.setdefault(t[1], len(ups) + 1)
         return ("upvar", "^%d" % k)
+    if t[0] == "call" and str(t[1]).split("::")[-1] in ("map_err", "ok_or_else") and len(t) > 2 and len(t[2]) == 2:
+        # the error mapper (a closure, a named function, a variant constructor) is not part of a panic edge's identity
+        t = t[:2] + ((t[2][0], ("sym", "_")),) + t[3:]
     out = []
     for y in t:
         if isinstance(y, tuple):
@@ -1260,6 +1275,10 @@ def decide_range_index(ppa, env, conds, base, rng):
                 flag = ("field", shi[1], "1")
                 if any(c[0] == "truth" and c[2] is False and c[1] == flag for c in conds):
                     ord_ok = True
+            if not ord_ok and shi[0] == "vfield" and shi[2] == "Some" and shi[1][0] == "call" and shi[1][1].split("::")[-1] == "checked_add" \
+                    and len(shi[1][2]) == 2 and (shi[1][2][0] == lo or shi[1][2][1] == lo):
+                # end = start.checked_add(n) on its Some side: end = start + n without wrap-around
+                ord_ok = True
             if end_ok and ord_ok:
                 return True, "start <= end <= len"
             return False, "range %s..%s may be out of bounds / inverted: %r..%r, len %r" % (fmt(lo)[:40], fmt(hi)[:40], loi, hii, li)
